@@ -84,6 +84,29 @@ def automate (v : View) (gi : Nat) : Option Move :=
 inductive PStatus | running | idle | suspend
 deriving Repr, DecidableEq, Inhabited
 
+/-- the runner's status machine (`playerRunner.Idle` / `Suspend` / `Resume`): an idle report makes a player who is not idle
+idle, with a fresh count — a suspended one too —, and counts up on one who is; at the threshold (2) he is suspended -/
+structure PSt where
+  status : PStatus := .running
+  idleCount : Nat := 0
+deriving Repr, DecidableEq, Inhabited
+
+def suspendThreshold : Nat := 2
+
+def pSuspend (s : PSt) : PSt := { s with status := .suspend }
+def pResume (s : PSt) : PSt := if s.status == .running then s else { status := .running, idleCount := 0 }
+def pIdle (s : PSt) : PSt :=
+  let s1 : PSt := if s.status != .idle then { status := .idle, idleCount := 0 } else { s with idleCount := s.idleCount + 1 }
+  if s1.idleCount == suspendThreshold then pSuspend s1 else s1
+
+/-- a path of reports, as letters: I = Idle, S = Suspend, R = Resume -/
+def pRun (s : PSt) : List Char → PSt
+  | [] => s
+  | 'I' :: t => pRun (pIdle s) t
+  | 'S' :: t => pRun (pSuspend s) t
+  | 'R' :: t => pRun (pResume s) t
+  | _ :: t => pRun s t
+
 inductive Plan
   | now (m : Move)              -- acts at once
   | after (secs : Int) (m : Option Move)   -- arms the time bank; acts (if at all) when it expires
